@@ -189,6 +189,7 @@ PROPS = {
         "units": [
             {"kind": "verus", "unit": "seq"},
             {"kind": "verus", "unit": "comb"},
+            {"kind": "verus", "unit": "perm"},
             {"kind": "verus", "unit": "seqsearch"},
             {"kind": "verus", "unit": "rangector"},
             {"kind": "verus", "unit": "idx"},
@@ -199,7 +200,7 @@ PROPS = {
         ],
         "unreached": [
             "of XSequence::chain the emptiness shortcuts and downcasts before the extracted statements (V-seqchain proves the representability guard, the flattening, the exactly shifted midpoints and that they stay sorted; the Chain arm of len is under contract); len on Map/Zip/Slice, the index native `get` is under contract from the statement after the downcast on; get on Zip (get on Map is under contract: f applied to what the inner element answers) (macros over dyn Any downcasts, Cow, iterator chains: outside Verus' dialect; BigInt promotion closure makes them intractable for CBMC)",
-            "of push / rpush / insert / pop / set / swap the prefix before the extracted statements (argument evaluation, downcast, the finiteness test and the allocation pre-flight); every other native builtin body; Map/Zip representations (call the evaluator); include.rs",
+            "of push / rpush / insert / pop / set / swap the prefix before the extracted statements (argument evaluation, downcast, the finiteness test and the allocation pre-flight); of the index natives combination / combination_with_replacement / permutation that the indices are the i-th combination / permutation in lexicographic order (decided: panic-freedom, the error cases, count, bounds and monotonicity of the indices); every other native builtin body; Map/Zip representations (call the evaluator); include.rs",
         ],
         "assumptions": ["LazyBigint operations by the contracts unit V-int proves (canonical representation of the mathematical result)",
                         "V-sequpd / V-seqsearch: the argument sequence is finite and holds values; XSequence::iter yields the elements in index order; std take / skip / collect / enumerate / zip / size_hint by their documented meaning (trusted iterator model)"],
